@@ -28,6 +28,7 @@ def run(ctx, R, tier):
     order(F, R)
     send(F, R)
     ibs(F, R)
+    ibs_single(F, R)
     builders(F, R)
     # nothing is lost: a track is not unloaded while a descendant track (with its sounds) is alive
     from .c12 import remove_rule
@@ -37,6 +38,9 @@ def run(ctx, R, tier):
     ungated(F, R, rule='B.C02.ungated')
     from .c07 import pickup_order
     pickup_order(F, R, rule='B.C02.pickup-order', which=('mixer',))
+    # a removed branch contributes silence: the removal flag a dropped handle raises is the one the audio side reads (C08)
+    from .c08 import drops
+    drops(F, R)
 
 
 def builders(F, R):
@@ -464,3 +468,34 @@ def per_frame_ops(F, R):
                             '%s applies `%s` to a frame %d times in one per-frame loop: a contribution is added twice / a gain applied twice'
                             % (fn, '+=' if op == 'add_assign' else '*=', len(sites)), detail={'fn': fn, 'op': op}, where=body.where(sites[0]), nontrivial=False)
     R.floor('B.C02.once-per-frame', n, 8)
+
+
+def ibs_single(F, R):
+    """One internal buffer size: AudioManager::new hands the very same value - the configured `internal_buffer_size`, untouched -
+    to the backend, to the resources (scratch buffers of the mixer and the main track), to the Renderer (which cuts the device
+    buffer into chunks of it) and keeps it for the tracks created later.  Two values (e.g. one rounded up to a power of two)
+    mean chunks longer than some scratch buffers."""
+    b = None
+    for x in F.bodies:
+        if x.krate == 'kira' and x.path.endswith('manager::AudioManager::<B>::new'):
+            b = x
+    if not R.check(b is not None, 'B.C02.ibs', 'anchor:manager-new', 'AudioManager::new not found'):
+        return
+    vals = []
+    for bb, t in b.calls():
+        cp = callee_path(t) or ''
+        cb = F.body(cp)
+        names = []
+        if cb is not None:
+            names = [cb.names.get(i, '') for i in range(1, cb.arg_count + 1)]
+        elif cp.endswith('Backend::setup'):
+            names = ['settings', 'internal_buffer_size']
+        for i, nm in enumerate(names):
+            if nm == 'internal_buffer_size' and i < len(t['args']):
+                vals.append((cp.split('::')[-2] + '::' + cp.split('::')[-1], describe(b, t['args'][i], depth=6, at=bb)))
+    for bb, si, s in b.stmts():
+        if s['k'] == 'assign' and s['rv']['k'] == 'agg' and 'internal_buffer_size' in (s['rv'].get('fields') or []):
+            vals.append(('AudioManager.internal_buffer_size', describe(b, s['rv']['ops'][s['rv']['fields'].index('internal_buffer_size')], depth=6, at=bb)))
+    ds = sorted(set(d for _, d in vals))
+    R.check(len(vals) >= 3 and len(ds) == 1 and ds[0].endswith('.internal_buffer_size') and '(' not in ds[0].replace('(*', '').replace(')', ''), 'B.C02.ibs', 'manager-new:single',
+            'AudioManager::new uses %s as internal buffer size(s): %s' % (ds, vals), detail={'uses': vals})
